@@ -222,6 +222,79 @@ func c11(c *Ctx) {
 			return
 		}
 		c.SawFunc(FuncName(dm))
+		// a parked series goes into the queue that is registered for its source: what prepareMetricQueue returns is
+		// the map found in awaitingMetrics under the source, or a new map that is stored there on the same path
+		// (a queue remembered elsewhere may already have been released: what is merged into it never leaves)
+		if pq := w.Func(P, "(*CloudHandler).prepareMetricQueue"); pq == nil {
+			r.Unresolved("(*CloudHandler).prepareMetricQueue")
+		} else if len(pq.Params) >= 2 {
+			c.SawFunc(FuncName(pq))
+			isReg := func(v ssa.Value) bool { return strings.HasSuffix(pathOf(v), ".awaitingMetrics") }
+			eachInstr(pq, func(in ssa.Instruction) {
+				rt, ok := in.(*ssa.Return)
+				if !ok || len(rt.Results) != 1 {
+					return
+				}
+				for _, vc := range valueCases(rt.Results[0], rt.Block()) {
+					okv, why := false, exprString(vc.V, 0)
+					switch x := ptrOrigin(vc.V).(type) {
+					case *ssa.Extract:
+						if lk, isLk := x.Tuple.(*ssa.Lookup); isLk && x.Index == 0 && isReg(lk.X) && ptrOrigin(lk.Index) == ssa.Value(pq.Params[1]) {
+							okv, why = true, "the registered queue"
+						}
+					case *ssa.Lookup:
+						if isReg(x.X) && ptrOrigin(x.Index) == ssa.Value(pq.Params[1]) {
+							okv, why = true, "the registered queue"
+						}
+					case *ssa.Call:
+						if isCall(x, "gostatsd.NewMetricMap") {
+							// stored under the source
+							for _, ref := range referrers(x) {
+								if mu, isMU := ref.(*ssa.MapUpdate); isMU && mu.Value == ssa.Value(x) && isReg(mu.Map) && ptrOrigin(mu.Key) == ssa.Value(pq.Params[1]) {
+									okv, why = true, "a new queue registered under the source"
+								}
+							}
+							// (through a local variable)
+							if !okv {
+								eachInstr(pq, func(in2 ssa.Instruction) {
+									if mu, isMU := in2.(*ssa.MapUpdate); isMU && isReg(mu.Map) && ptrOrigin(mu.Value) == ssa.Value(x) && ptrOrigin(mu.Key) == ssa.Value(pq.Params[1]) {
+										okv, why = true, "a new queue registered under the source"
+									}
+								})
+							}
+						}
+					}
+					r.Check("prepareMetricQueue:returns-the-registered-queue", okv, rt.Pos(), "the queue a series is parked in is "+why)
+				}
+			})
+		}
+		// ... and it is asked for with the source of the very series being parked, for every series anew
+		if him := w.Func(P, "(*CloudHandler).handleIncomingMetrics"); him == nil {
+			r.Unresolved("(*CloudHandler).handleIncomingMetrics")
+		} else {
+			c.SawFunc(FuncName(him))
+			nm := 0
+			for _, g := range WithAnon(him) {
+				for _, cl := range callsIn(g) {
+					cal := staticCallee(cl)
+					if cal == nil || !strings.HasPrefix(cal.Name(), "Merge") || len(cl.Common().Args) != 4 || !strings.HasSuffix(cal.Signature.Recv().Type().String(), "gostatsd.MetricMap") {
+						continue
+					}
+					nm++
+					a := cl.Common().Args
+					okq, why := false, "the queue is "+exprString(a[0], 0)
+					if pc, isCall := a[0].(*ssa.Call); isCall && staticCallee(pc) != nil && staticCallee(pc).Name() == "prepareMetricQueue" && len(pc.Call.Args) == 2 {
+						if pathOf(pc.Call.Args[1]) == pathOf(a[3])+".Source" {
+							okq = true
+						} else {
+							why = "the queue is asked for with " + pathOf(pc.Call.Args[1]) + ", the series parked is " + pathOf(a[3])
+						}
+					}
+					r.Check("handleIncomingMetrics:"+cal.Name()+":parks-under-own-source", okq, cl.Pos(), "each series is merged into prepareMetricQueue(<its own source>), resolved for this series: "+why)
+				}
+			}
+			r.Check("handleIncomingMetrics:merge-sites", nm == 4, him.Pos(), fmt.Sprintf("%d Merge<T> calls", nm))
+		}
 		// the two maps built by DispatchMetricMap, identified by what is done with them: the one handed to
 		// the next handler and the one sent to the Run goroutine
 		var fwdMap, parkMap ssa.Value
@@ -713,6 +786,34 @@ func c11(c *Ctx) {
 					for _, f := range []string{"statsMetricHostsQueued", "statsEventItemsQueued", "statsEventHostsQueued"} {
 						if strings.Contains(exprString(cl.Common().Args[1], 0), f) {
 							got[f] = name
+						}
+					}
+				}
+			}
+			if len(got) < 3 {
+				// the gauges listed in a table of (name, value, tags) rows that one loop reports
+				loopGauge := false
+				for _, cl := range callsIn(em) {
+					if cl.Common().IsInvoke() && cl.Common().Method.Name() == "Gauge" {
+						if _, isC := constString(cl.Common().Args[0]); !isC {
+							loopGauge = true
+						}
+					}
+				}
+				if loopGauge {
+					for _, row := range structTableRows(em) {
+						name := ""
+						for _, v := range row {
+							if s2, isS := constString(v); isS && strings.HasPrefix(s2, "cloudprovider.") {
+								name = s2
+							}
+						}
+						for _, v := range row {
+							for _, f := range []string{"statsMetricHostsQueued", "statsEventItemsQueued", "statsEventHostsQueued"} {
+								if name != "" && strings.Contains(exprString(v, 0), f) {
+									got[f] = name
+								}
+							}
 						}
 					}
 				}
@@ -1259,6 +1360,10 @@ func c19(c *Ctx) {
 			}
 		}
 		r.Check("parked-events:counted-per-forward", okInc, ue.Pos(), "dispatched++ for each forwarded event")
+	})
+
+	c.Rule("C19.R7", "an event line reaches the lexer as it was sent: what the parser hands to the lexer for a line is exactly the bytes between the newlines (title and text are delimited by byte counts, so trimming or rewriting the line makes a valid event a bad line or cuts its last field) - C05.R3's line-splitting obligations, shared", 3, func(r *Rule) {
+		importObligations(c, r, c05, "C05.R3", func(k string) bool { return strings.HasPrefix(k, "split:") })
 	})
 
 	c.Rule("C19.R3", "field tables along the chain: lexer (C02.R2) -> forwarder/receiver (C14.R2, C14.R3); the parser fills source and time only as documented", 20, func(r *Rule) {
